@@ -676,6 +676,9 @@ class FunctionParser(BaseParser):
                 continue
             if field.is_required(options=context.options):
                 context.handle_error(exc.AbsenceError(item=field.attname))
+                # reported here; the keywords are parsed without it like any other positional-only field
+                # (or a keyword spelled like it was taken as its value by one lookup strategy only)
+                parsed_keys.append(field.attname)
                 continue
             default = field.get_default(context.options)
             if not unprovided(default):
